@@ -90,7 +90,7 @@ Print Assumptions C05_break_guard.
 (* in an accepted program setup() runs to its last statement and no pass of loop() is cut short,
    whatever the store and the button history (breaks of inner [for] loops stay inside them) *)
 Theorem C05_break_never_leaves_main : forall its, transl_ok its = true ->
-  (forall m, snd (run_ann m (p_tab (transl its)) true (p_setup (transl its)) v0) = false) /\
+  (forall m, snd (run_annT (p_G (transl its)) m true (st0 (transl its)) (p_setup (transl its)) v0) = false) /\
   (forall m inp v h, snd (run_pass m inp (transl its) v h) = false).
 Proof. exact break_guard_sound. Qed.
 Print Assumptions C05_break_never_leaves_main.
@@ -103,11 +103,14 @@ Proof. exact break_guard_examples. Qed.
 Print Assumptions C05_break_guard_nonvacuous.
 
 (* ---------------------------------------------------------------- configured before use *)
-(* For every accepted program whose devices are declared by top-level statements before the main
-   loop or (hoisted kinds) in its body, used after their declaration, with unique names and one
-   mode per pin ([well_placed]), for every button history and every N: in the whole firmware trace
-   every command, injected poll, tick and handler command on a pin / UART / Servo / LCD is preceded
-   by a fitting configuration event of that resource, and no pin is configured to two modes. *)
+(* For every accepted program inside [well_placed] - devices declared by top-level statements before the main loop
+   or (hoisted kinds) in its body; a device NAME may be bound several times (before the loop, at the loop top, same or
+   different pins, same or different kinds) as long as the static resolution check passes: with the bindings and dedup
+   keys emit() has at each point of the text, every statement only mentions devices whose resolved pins are configured
+   by the hoisted block or by an earlier in-place configuration; one mode per pin - for every button history and every
+   N: in the whole firmware trace every command, injected poll, tick and handler command on a pin / UART / Servo / LCD
+   is preceded by a fitting configuration event of that resource, and no pin is configured to two modes.  The check is
+   static (no N, no input, no branch outcome enters it); the theorem is about every execution. *)
 Theorem C05_configured_before_use : forall inp n its,
   transl_ok its = true -> well_placed its = true ->
   cbu (exec inp n its) = true /\ one_mode (exec inp n its) = true.
@@ -118,6 +121,36 @@ Example C05_configured_nonvacuous : well_placed w_good = true /\ transl_ok w_goo
   cbu (exec no_input 2 w_good) = true /\ length (exec no_input 2 w_good) = 16%nat.
 Proof. exact good_well_placed. Qed.
 Print Assumptions C05_configured_nonvacuous.
+
+(* re-bound names are inside the guard: [led = Led(5)] before the loop and [led = Led(6)] at its top (pinMode(6) is
+   hoisted, commands in the loop drive pin 6); [sv = Servo(9)] / [sv = Servo(10)] (one Servo object per name, attached
+   to pin 9, which every write then drives).  The first program is outside the unique-names guard of the first version. *)
+Example C05_rebound_nonvacuous :
+  (well_placed w_rebound_led = true /\ transl_ok w_rebound_led = true /\ well_placed_unique w_rebound_led = false /\
+   exec no_input 1 w_rebound_led =
+     [ECfg (RPin 6) 1; ECfg RSer 0; ECfg (RPin 5) 1; EUse (RPin 5) true; EMark 1; EUse (RPin 6) true; EMark 2]) /\
+  (well_placed w_rebound_servo = true /\
+   exec no_input 1 w_rebound_servo =
+     [ECfg (RServo 9) 0; EUse (RServo 9) true; ECfg RSer 0; EUse (RServo 9) true; EMark 2]).
+Proof. exact rebound_examples. Qed.
+Print Assumptions C05_rebound_nonvacuous.
+
+(* The guard is needed: the faithful model leaves configured-before-use in two re-binding shapes (findings).
+   [b = Button(5); b = Button(8)] before the loop: button_init_emitted is keyed by name, so pinMode(8) is never
+   emitted, yet every pass polls digitalRead(8). *)
+Theorem C05_button_rebound_refuted : exists its inp n,
+  transl_ok its = true /\ one_main_last its = true /\ forallb nested_decl_free (all_stmts its) = true /\
+  well_placed its = false /\ cbu (exec inp n its) = false.
+Proof. exact button_rebound_refuted_ex. Qed.
+Print Assumptions C05_button_rebound_refuted.
+
+(* [us = Ultrasonic(5, 6); us.measure_distance(); us = Ultrasonic(8, 9)]: the measuring helper is generated once per
+   name from the LAST declaration, so the first measurement drives pin 8 before pinMode(8, OUTPUT). *)
+Theorem C05_ultra_rebound_refuted : exists its inp n,
+  transl_ok its = true /\ one_main_last its = true /\ forallb nested_decl_free (all_stmts its) = true /\
+  well_placed its = false /\ cbu (exec inp n its) = false.
+Proof. exact ultra_rebound_refuted_ex. Qed.
+Print Assumptions C05_ultra_rebound_refuted.
 
 (* ---------------------------------------------------------------- housekeeping *)
 (* For every program, history and N (no guard): setup() contains no poll / tick / handler event,
